@@ -148,6 +148,11 @@ def main(run):
     if not res.completed:
         raise tlc.MachineryError('settings enumeration failed: ' + res.out[-1200:])
     points, chains = res.prints('S'), [c[0] for c in res.prints('K')]
+    # design model of the keys: own-password-only unlock for every chain of add-key; the wrong wrapping key must be caught
+    kbase = open(os.path.join(tlc.SPEC_DIR, 'MC_Keys.cfg')).read()
+    kres = tlc.check_design('Keys', 'MC_Keys.cfg')
+    tlc.check_design('Keys', 'mut.cfg', cfg_text=kbase.replace('Mutant = "none"', 'Mutant = "wrongWrappingKey"'), expect_violation='OwnPasswordOnly')
+    run.add(keys_model_states=kres.distinct)
     run.add(states=res.distinct, transitions=res.generated, points_enumerated=len(points), chains_enumerated=len(chains))
     base = ('h-default', 'c-default', 'e-default', 'x-none')
     # every single-group variation around the default point is always run; the rest of the product is sampled
